@@ -59,9 +59,24 @@ class Contract:
                 ctx.oblige(f"{tag}/pre:{short}:{name}", f,
                            detail=f"at the call of {short} from {ctx.callstack[-1] if ctx.callstack else '?'}")
 
+    def attaches(self, bound):
+        """The spec function knows every parameter of the real function (a parameter added to the
+        real signature detaches the contract: the body is then inlined at calls and the function's
+        own refinement check is undecided)."""
+        import inspect
+        try:
+            ps = inspect.signature(self.spec).parameters
+        except (TypeError, ValueError):
+            return True
+        if any(p.kind == p.VAR_KEYWORD for p in ps.values()):
+            return True
+        return all(n in ps for n in bound)
+
     def call(self, it, args, kwargs):
         ctx = it.ctx
         bound = self.bind(it, args, kwargs)
+        if not self.attaches(bound):
+            raise ContractDetached(self.qualname)
         caller = ctx.callstack[-1] if ctx.callstack else (it.top or "?")
         if self.pre is not None:
             for name, f in self.pre(it, **bound):
@@ -117,6 +132,10 @@ def clone(v, memo):
 
 class Mismatch(Exception):
     pass
+
+
+class ContractDetached(Exception):
+    """The real function's signature is no longer the one the contract was written for."""
 
 
 def veq(it, a, b, seen=None):
@@ -207,6 +226,9 @@ def verify_case(eng, lib, con, case_name, make_case, monitors=(), setup=None):
             setup(it)
         node = eng.funcs[q]
         bound = it.bind_args(node, list(args), {}, None).vars
+        if not con.attaches(bound):
+            raise Undecided(f"the signature of {q} changed: its contract does not attach "
+                            f"(parameters {sorted(bound)})")
         if con.pre is not None:
             for name, f in con.pre(it, **bound):
                 if callable(f):
